@@ -70,6 +70,26 @@ func FMA(g *G, n int) []Program {
 			g.LoadInt("r0", false, x, e, 0, g.Mode())
 			g.LoadInt("r1", false, y, 0, 0, g.Mode())
 			g.LoadInt("r3", true, u, e, 0, g.Mode())
+		case k < 79: // u carries an inexact accuracy from its own history, the product cancels it exactly, the receiver is u
+			g.Load("r3", g.Bool(), g.Digits(8+g.R.Intn(30)), g.Exp(), 0, g.Mode())
+			g.Emit(M{"op": "SetMode", "z": "r3", "m": g.Pick(4, 4, m)})
+			g.Emit(M{"op": "SetPrec", "z": "r3", "p": 2 + g.R.Intn(6)}) // rounds: Below or Above stays behind
+			g.Emit(M{"op": "Copy", "z": "r0", "x": "r3"})
+			g.Load("r1", true, "1", 1, 0, g.Mode())
+			g.Emit(M{"op": "FMA", "z": "r3", "x": "r0", "y": "r1", "u": "r3"})
+			if g.Pending() >= 120 {
+				out = append(out, g.Flush("fma"))
+			}
+			continue
+		case k < 82: // an "exact" operand: precision MaxPrec (the sum of the operands' precisions does not fit 32 bits)
+			g.Load("r0", g.Bool(), g.Digits(1+g.R.Intn(6)), int64(g.R.Intn(7)-3), 0, g.Mode())
+			g.Emit(M{"op": "SetPrecMax", "z": "r0"})
+			g.Load("r1", g.Bool(), g.Digits(1+g.R.Intn(6)), int64(g.R.Intn(7)-3), 0, g.Mode())
+			g.Load("r3", g.Bool(), g.Digits(1+g.R.Intn(6)), int64(g.R.Intn(7)-3), 0, g.Mode())
+			if g.Bool() {
+				g.Emit(M{"op": "SetPrecMax", "z": g.PickS("r1", "r3")})
+			}
+			p = 1 + g.R.Intn(6)
 		case k < 88: // u far above / far below the product (sticky only)
 			lx, ly := 1+g.R.Intn(p+3), 1+g.R.Intn(p+3)
 			e := g.Exp()
